@@ -23,6 +23,11 @@ pub fn gen_sources(tier: &str, seed: u64) -> Vec<String> {
         "<c><v slot:a slot:b-c=\"a\" x=\"{{ a }}{{ bC }}\">{{ a }}{{ b }}</v>{{ a }}</c>".into(),
         "<v wx:if=\"{{ item }}\" wx:for=\"{{ l }}\">{{ item }}</v><v wx:elif=\"{{ item }}\"/>".into(),
         "<slot name=\"{{ a }}\" v=\"{{ b }}\" id=\"{{ c }}\"/><include src=\"x\"/>{{ d }}".into(),
+        // an include anywhere (static tree, wx:if / wx:for subtree, sub-template body) switches the binding map off
+        "<v>{{ a }}</v><block wx:if=\"{{ b }}\"><include src=\"/inc\"/></block>".into(),
+        "<v x=\"{{ a }}\"/><v wx:for=\"{{ l }}\"><include src=\"/inc\"/>{{ item }}</v>{{ c }}".into(),
+        "<template name=\"t\"><include src=\"/inc\"/></template><v>{{ a }}</v><template is=\"t\"/>".into(),
+        "<v wx:if=\"{{ b }}\">x</v><v wx:else><w wx:for=\"{{ l }}\"><include src=\"/inc\"/></w></v>{{ a }}{{ d }}".into(),
         // consecutive empty array slots before an item that reads a field
         "<v x=\"{{ [ , , a] }}\" y=\"{{ [ , , , ...c, , , d] }}\">{{ a }}{{ c }}{{ d }}</v><w wx:if=\"{{ [ , , , b][3] }}\">{{ b }}</w>{{ b }}".into(),
     ];
